@@ -4,7 +4,7 @@ Copies a verified seeded change into /verif/seeded/<PID>-<slug>/ (patch.diff, de
 import json, os, shutil, sys, re
 pid, n, slug, dest, needs, caught = sys.argv[1:7]
 args = sys.argv[7] if len(sys.argv) > 7 else ""
-src = "/tmp/seed/%s/_seed" % pid
+src = "%s/%s/_seed" % (os.environ.get("SEED_ROOT", "/tmp/seed"), pid)
 out = "/verif/seeded/%s-%s" % (pid, slug)
 os.makedirs(out, exist_ok=True)
 shutil.copyfile("%s/change%s.diff" % (src, n), out + "/patch.diff")
